@@ -518,6 +518,10 @@ class PropertyRun:
                 why = 'the restructured body was verified without its proof hints (signature-only weaving) and an obligation is not provable'
             elif changed and v.get('new_closures'):
                 why = 'the changed code contains a new closure, which carries no specification, and an obligation is not provable'
+            elif changed and any(re.search(rx, v.get('clause_text') or '') for rx in self.cfg.get('stronger_than_statement', [])):
+                # a clause that pins HOW the implementation achieves the statement (e.g. which draw of the seeded stream decides
+                # which character): other schemes satisfy the statement too, so its failure alone is not a violation
+                why = 'the clause fixes an implementation scheme that is stronger than the statement, and it is not provable on the changed code'
             if why and not corroborated and not os.environ.get('VT_NO_PROBE'):
                 self.undecided.append('group=%s unit=%s reason=%s, and no failing input was found (%s): %s'
                                       % (v.get('group'), v['unit'], why, v['kind'], re.sub(r'\s+', ' ', v.get('clause_text') or '')[:140]))
